@@ -124,6 +124,17 @@ type Frame struct {
 	callOrd  map[string]int // callee short name -> ordinal counter (static, per frame)
 	static   map[*ssa.Alloc]bool
 	parent   *Frame
+	curBlk   *ssa.BasicBlock
+	// loops of this frame whose automatic frame is the weak one (objects that existed at function entry are
+	// unchanged): every write inside them to an address that is neither loop-invariant nor statically fresh must
+	// be proved to hit an object allocated by this function (obligation kind loop-frame)
+	weakLoops map[*ssa.BasicBlock]*weakLoop
+}
+
+type weakLoop struct {
+	body   map[*ssa.BasicBlock]bool
+	heaps  map[string]bool
+	marker int
 }
 
 type iterInfo struct {
@@ -175,6 +186,8 @@ type FuncRun struct {
 	nframes  int
 	obls     []*Obligation
 	scout    int
+	curFrame *Frame
+	curPos   token.Pos
 	wsStack  []*WriteSet
 	names    map[string]int // obligation base name -> count
 	mutexes  []mutexRef
@@ -406,6 +419,9 @@ func (fr *FuncRun) heapCur(st *State, h string) string {
 
 func (fr *FuncRun) heapSet(st *State, h, term string) {
 	sort := fr.w.heapSorts[h]
+	if fr.scout == 0 && !fr.curWriteFresh && fr.curFrame != nil {
+		fr.loopFrameCheck(st, h, storeAddr(term))
+	}
 	st.heaps[h] = fr.defAlways(sort, term, h)
 	fr.noteHeapWrite(h)
 	if fr.addrLog != nil {
@@ -656,4 +672,25 @@ func iteChain(conds, vals []string) string {
 		out = ite(conds[i], vals[i], out)
 	}
 	return out
+}
+
+// loopFrameCheck: a write inside a weakly framed loop must hit an object this function allocated, unless its
+// address is one of the loop-invariant addresses the frame excludes.
+func (fr *FuncRun) loopFrameCheck(st *State, h, addr string) {
+	for f := fr.curFrame; f != nil; f = f.parent {
+		for _, wl := range f.weakLoops {
+			if f.curBlk == nil || !wl.body[f.curBlk] || !wl.heaps[h] {
+				continue
+			}
+			if invariantTerm(addr, wl.marker) {
+				continue
+			}
+			cond := "false"
+			if addr != "?" && !hasBound(addr) {
+				cond = "(> (fa_root " + addr + ") AllocBase)"
+			}
+			fr.assertOb(st, "loop-frame", h, cond, fr.curPos, "a write inside the loop to "+h+" hits an object allocated by this function (the loop's automatic frame keeps entry-state objects unchanged)")
+			return
+		}
+	}
 }
